@@ -3,7 +3,7 @@ import itertools
 
 import gen_lang
 from props import c02
-from vlib import Case, lang_lines
+from vlib import Case, lang_lines, vmrun_lines
 
 RULE = ("op `eval` on scope skeletons: nested/sibling blocks, shadowing, functions written inside blocks, nested and recursive functions, closures returned and called later, "
         "with a use of each name before, inside and after every block (each binding has a distinct value so a wrong resolution is visible); enumerated skeletons + random programs; "
@@ -14,7 +14,7 @@ canon = c02.canon
 nontrivial = c02.nontrivial
 classify = c02.classify
 def model_skip(c):
-    return not c.line.startswith(("symtab ", "vmrun "))
+    return not c.line.startswith(("symtab ", "vmrun ", "resolve "))
 
 NAMES = ["x", "y"]
 
@@ -108,6 +108,15 @@ def cases(ctx):
         srcs.append(s); tags.append("generated")
     lines = lang_lines(ctx, srcs)
     out = [Case(l, (t,), extra={"src": s}) for l, t, s in zip(lines, tags, srcs)]
+    # translation validation: Bcv (the verified bytecode verifier: heights, local / free / constant indices in range, closure
+    # free counts) on the real bytecode of the scope skeletons (closures, nested and recursive functions); the VM model runs it
+    vsel = [k for k in range(len(srcs)) if tags[k] != "skeleton" or ctx.thorough() or k % 4 == 0]
+    vl = vmrun_lines(ctx, [srcs[k] for k in vsel])
+    out += [Case(l, (tags[k], "vm"), extra={"src": srcs[k]}) for l, k in zip(vl, vsel)]
+    # the compiler's use of the symbol table (model P2sh.Resolver) against the real compiler, and the real compiler against
+    # the lexical reference (P2sh.Lex): what is emitted for every name of every skeleton / generated program (op `resolve`)
+    rl = lang_lines(ctx, srcs, op="resolve")
+    out += [Case(l, (t, "resolve"), extra={"src": s}) for l, t, s in zip(rl, tags, srcs)]
     # the symbol-table model against the real SymbolTable, step by step
     names = ["x", "y", "f"]
     for _ in range(ctx.scale(4000, 200000)):
